@@ -65,7 +65,12 @@ func (d *mapTypeFieldTextDecoder) Decode(req *protocol.Request, params param.Par
 				defaultValue = tagInfo.Default
 				found := checkRequireJSON(req, tagInfo)
 				if found {
-					err = nil
+					// a json tag that is not 'required' carries no value unless the key
+					// is in the body: it must not clear a pending 'required' error of
+					// a higher-priority source
+					if tagInfo.Required || keyExist(req, tagInfo) {
+						err = nil
+					}
 				} else {
 					err = fmt.Errorf("'%s' field is a 'required' parameter, but the request does not have this parameter", tagInfo.Value)
 				}
